@@ -41,3 +41,27 @@ impl<K: Copy, E, V: Copy> KeyExpTree<K, E, V> {
         }
     }
 }
+
+impl<K: crate::ExpiredKey<E>, E: crate::Expiration, V: Copy> KeyExpTree<K, E, V> {
+    /// Inverse of `verif_snapshot`: puts a tree into the given arena state, so that tooling can
+    /// start an operation from any state. The caller answers for the validity of the snapshot.
+    pub fn verif_load(s: VerifSnapshot<K, V>) -> Self {
+        let mut tree = Self::new(0);
+        tree.store.buffer = s
+            .nodes
+            .into_iter()
+            .map(|n| crate::key::node::Node {
+                parent: n.parent,
+                left: n.left,
+                right: n.right,
+                color: if n.red { Color::Red } else { Color::Black },
+                entity: crate::key::entity::Entity::new(n.key, n.val),
+            })
+            .collect();
+        let mut unused = Vec::with_capacity(s.unused_capacity);
+        unused.extend(s.unused);
+        tree.store.unused = unused;
+        tree.root = s.root;
+        tree
+    }
+}
